@@ -128,10 +128,7 @@ def run(ctx) -> None:
 
     check_default_class_from_signature(ctx, "C18.R1")
     check_bound_class_from_bound_tables(ctx, "C18.R1")
-    sd = db.func("runners._shared.helpers._safe_deepcopy")
-    rets = [n for n in walk_local(sd.node) if isinstance(n, ast.Return)]
-    ok = bool(rets) and all(isinstance(r.value, ast.Call) and dotted(r.value.func) == "copy.deepcopy" and r.value.args and src(r.value.args[0]) == sd.positional_params[0] for r in rets)
-    rep.add("C18.R1", f"{sd.qname}:is-deepcopy", ok, sd.loc(), "the helper returns copy.deepcopy(value)" if ok else "the copy helper no longer returns copy.deepcopy of its argument (e.g. a shallow copy shares nested containers)")
+    check_default_copy_is_deep(ctx, "C18.R1")
     check_inputs_from_resolver(ctx, "C18.R1")
 
     # ---- R5: who may copy a value ------------------------------------------------
@@ -350,6 +347,16 @@ def check_map_broadcast_values_are_provided(ctx, rule: str) -> None:
             rep.add(rule, f"{m.qname}:broadcast-values-are-the-provided-ones", bad is None, f"{m.module.rel}:{(bad[0] if bad else c).lineno}", "the mapping handed to the per-item generator derives from the caller's values only" if bad is None else f"'{src(bad[0])[:70]}' merges the graph's bound values into the mapping that map() broadcasts: with clone=True (or a clone list naming it) a bound object is deep-copied per item, so the node receives a copy instead of the very object that was bound — also for an inner graph's own bindings, which the nested map merges back in")
     if n < 2:
         raise AnalysisError("generate_map_inputs call sites in the map templates not found")
+
+
+def check_default_copy_is_deep(ctx, rule: str) -> None:
+    """The helper that gives each execution its own copy of a signature default returns copy.deepcopy(value) on every
+    path — no type is handed through uncopied (a tuple or namedtuple default can hold a list)."""
+    db, rep = ctx.db, ctx.rep
+    sd = db.func("runners._shared.helpers._safe_deepcopy")
+    rets = [n for n in walk_local(sd.node) if isinstance(n, ast.Return)]
+    ok = bool(rets) and all(isinstance(r.value, ast.Call) and dotted(r.value.func) == "copy.deepcopy" and r.value.args and src(r.value.args[0]) == sd.positional_params[0] for r in rets)
+    rep.add(rule, f"{sd.qname}:is-deepcopy", ok, sd.loc(), "the helper returns copy.deepcopy(value)" if ok else "the copy helper no longer returns copy.deepcopy of its argument on every path (e.g. a fast path that hands 'immutable' types through — a tuple/namedtuple default holding a list keeps what the previous execution appended; or a shallow copy that shares nested containers)")
 
 
 def check_nested_map_inputs(ctx, rule: str) -> None:
